@@ -12,6 +12,16 @@ CHECKS = {
         'Builtin hash() itself and int() size limits (>4300 digits) are not modelled. Print Assumptions: closed under the global context.',
    technique='Coq proof (induction, total-order lemmas) + extracted-model correspondence on all ordered pairs',
    design='DESIGN.md §3 C18'),
+ 'C16': dict(
+   text='Machine-checked proof (Coq) that the model of SortableDict/MetadataObject (two-field state _values/_order, add_item with its index arithmetic, '
+        'the MutableMapping mixins in terms of the primitives) refines a reference ordered map of the documented semantics for EVERY operation history: '
+        'same items in the same order and the same result/exception class for every operation; keys unique; a rejected single-item operation changes nothing. '
+        'Tied to the code by lock-step correspondence (model vs MetadataObject) over an exhaustive operation alphabet from every ordered subset of the keys.',
+   note='Model/SortableDict.v hand-written (no literal data to regenerate). Values are integers, validate_fn refuses negatives; CPython list/dict primitives '
+        '(index, insert clamp, remove, sort, reverse) are modelled, tied by the correspondence. extend/update are non-atomic in code and spec alike. '
+        'Print Assumptions: closed under the global context.',
+   technique='Coq refinement proof (one-step simulation lifted by induction over the history) + lock-step correspondence',
+   design='DESIGN.md §3 C16'),
 }
 PENDING = {}
 for i in range(1, 21):
